@@ -408,12 +408,23 @@ def terms_checks(case, real, dA, fails, facts, attempt, prop):
     # regime the zip-up method is documented for) the reported error bounds the actual one
     nrm = np.linalg.norm(Hv)
     methods = ['SVD', 'zip_up', 'variational']
+    last_chi = [None]
+    state_dims = [st.dim for st in A.sites]
+
+    def schmidt_ranks(v):
+        out = []
+        for b in range(1, len(state_dims)):
+            m = np.asarray(v).reshape(int(np.prod(state_dims[:b])), -1)
+            sv = np.linalg.svd(m, compute_uv=False)
+            out.append(int(np.sum(sv > 1e-10 * max(sv[0], 1e-300))))
+        return out
 
     def run_apply(op, state, method, chi_max):
         p2 = state.copy()
         opts = {'compression_method': method, 'trunc_params': {'chi_max': chi_max, 'svd_min': 1e-14},
                 'max_sweeps': 8, 'min_sweeps': 2, 'm_temp': 2, 'max_trunc_err': None}
         err = op.apply(p2, opts)
+        last_chi[0] = [int(c) for c in p2.chi]
         return err, p2.norm * full_vector(p2)
     if nrm > 1e-8:
         for method in methods:
@@ -426,7 +437,20 @@ def terms_checks(case, real, dA, fails, facts, attempt, prop):
             facts[f'apply.{method}'] = True
             delta2 = float(np.sum(np.abs(res - Hv) ** 2)) / nrm ** 2
             if delta2 > 1e-10:
-                prop(f'apply.{method}.exact-mismatch', f'no truncation, |H psi - result|^2/|H psi|^2 = {delta2:.2e}')
+                eps = float(abs(getattr(err, 'eps', 0.0)))
+                ranks = schmidt_ranks(Hv)
+                lost = last_chi[0] is not None and any(c < r for c, r in zip(last_chi[0], ranks))
+                is_projection = abs(np.vdot(res, Hv - res)) <= 1e-9 * nrm ** 2
+                if method == 'variational' and eps <= 1e-20 and lost and is_projection:
+                    # the sweep only ever projects H|psi> on the bases of the current guess (initially |psi>): a Schmidt
+                    # component of H|psi> whose projection on them is exactly zero is dropped as a zero singular value
+                    # and never comes back; the reported truncation error stays 0
+                    prop('apply.variational.component-orthogonal-to-guess-lost',
+                         f'no truncation requested, reported error {eps:.1e}, but the result has bond dimensions '
+                         f'{last_chi[0]} < Schmidt ranks {ranks} of H|psi> and |H psi - result|^2/|H psi|^2 = {delta2:.2e} '
+                         '(the result is an orthogonal projection of H|psi>)')
+                else:
+                    prop(f'apply.{method}.exact-mismatch', f'no truncation, |H psi - result|^2/|H psi|^2 = {delta2:.2e}')
     if A.L >= 3 and max(psi.chi) > 2 and nrm > 1e-8:
         hn = max(1.0, float(np.linalg.norm(dA, 2)))
         Unear = attempt('make_U_II', lambda: A.make_U_II(0.05 / hn))
